@@ -466,7 +466,9 @@ mismatch between values and axes""".format(inferred, self.values.shape)
         #TODO: use the __new__ operator to bypass all checkings in __init__
         # just check consistency between axes and values shape
 
-        return cls(values, axes, **metadata)
+        obj = cls(values, axes)
+        obj.attrs.update(metadata)
+        return obj
 
     def copy(self, shallow=False):
         """ copy of the object and update arguments
